@@ -85,8 +85,28 @@ pub fn check(ctx: &Ctx, genome: &[u16]) -> CaseReport {
     rep
 }
 
-pub fn parts() -> Vec<Part> {
-    vec![Part { name: "kerning", genome_len: 2200, cases_quick: 1500, cases_thorough: 20000, threads: 12, max_shrink_iters: 300, check: Box::new(check), remote: None }]
+pub fn check_dense(ctx: &Ctx, genome: &[u16]) -> CaseReport {
+    let mut rep = CaseReport::default();
+    let f = SynthFont::decode(genome, &Profile { min_glyphs: 23, max_glyphs: 27, max_axes: 1, ..profile() });
+    rep.key = f.hash();
+    classify(&mut rep, &f);
+    let n_adj = f.sources.iter().filter_map(|s| s.kerning.as_ref()).map(|k| k.pairs.len()).max().unwrap_or(0);
+    rep.class(if n_adj > 256 { "more-than-256-pairs-in-a-master" } else { "at-most-256-pairs" });
+    rep.sample = Some(json!({"glyphs": f.glyphs.len(), "max_pairs_in_a_master": n_adj, "kerning_masters": kerning_masters(&f)}));
+    if ctx.dry { for (k, v) in crate::synth::ufo::render(&f) { rep.artifacts.push((k, v.into_bytes())); } return rep; }
+    let Some(b) = build(ctx, &mut rep, f, &BuildOpts::default()) else { return rep };
+    check_kerning(&mut rep, &b.font, &b.bytes);
+    rep.nontrivial = n_adj > 256;
+    attach_source(&mut rep, &b);
+    rep
 }
-pub const RULE: &str = "genome -> SynthFont with 1-3 axes, 3-10 Latin / common-script glyphs (some non-export), per full master an optional kerning.plist + groups.plist: a base partition into up to 3 kern1 and 3 kern2 groups perturbed per master (glyph moved / ungrouped / newly grouped, group names optionally renamed per master), 1-9 base pairs of all four kinds with per-master jitter, pairs dropped per master, zero and .5 values, masters without kerning (including the default). For every kerning master x every ordered pair of exported glyphs x {DFLT, latn}: sum over the kern feature's lookups (own PairPos format 1/2 interpreter, first matching subtable per lookup, class-0 shadowing, GDEF variation deltas) vs the UFO lookup algorithm on that master's own kerning/groups, OpenType-rounded. non-trivial = >= 2 kerning masters with different group partitions or a pair present in exactly one kerning master";
+
+pub fn parts() -> Vec<Part> {
+    vec![
+        Part { name: "kerning", genome_len: 2200, cases_quick: 1500, cases_thorough: 20000, threads: 12, max_shrink_iters: 300, check: Box::new(check), remote: None },
+        // many glyphs, every ordered pair kerned: several hundred adjustments per master
+        Part { name: "dense", genome_len: 4200, cases_quick: 40, cases_thorough: 600, threads: 12, max_shrink_iters: 80, check: Box::new(check_dense), remote: None },
+    ]
+}
+pub const RULE: &str = "genome -> SynthFont with 1-3 axes, 3-10 Latin / common-script glyphs (some non-export), per full master an optional kerning.plist + groups.plist: a base partition into up to 3 kern1 and 3 kern2 groups perturbed per master (glyph moved / ungrouped / newly grouped, group names optionally renamed per master), 1-9 base pairs of all four kinds with per-master jitter, pairs dropped per master, zero and .5 values, masters without kerning (including the default); a second part with 17-24 glyphs and every ordered glyph pair kerned (several hundred adjustments per master). For every kerning master x every ordered pair of exported glyphs x {DFLT, latn}: sum over the kern feature's lookups (own PairPos format 1/2 interpreter, first matching subtable per lookup, class-0 shadowing, GDEF variation deltas) vs the UFO lookup algorithm on that master's own kerning/groups, OpenType-rounded. non-trivial = >= 2 kerning masters with different group partitions or a pair present in exactly one kerning master";
 pub const ASSUMPTIONS: &[&str] = &["one script (Latin + common), left to right, no mark glyphs among the kerned glyphs: fontc's script / direction / mark splitting then moves no pair out of the kern feature", "tolerance at a non-default master: 0.5 x (sum of active region scalars + number of model regions optimised out of the store because their delta rounded to 0): each delta is rounded once; exact at the default master", "masters with an empty kerning.plist are not kerning masters (fontc interpolates across them; the statement quantifies over masters that define kerning)"];
